@@ -219,6 +219,7 @@ func (r *Run) Finish() {
 			known[f.Key] = f
 		}
 	}
+	os.RemoveAll(filepath.Join(Root(), "replays", r.ID)) // replay files of earlier runs are stale
 	keys := make([]string, 0, len(r.viol))
 	for k := range r.viol {
 		keys = append(keys, k)
